@@ -24,6 +24,7 @@ import (
 	"strings"
 	"sync"
 	"time"
+	"verifharness/internal/hx"
 
 	"github.com/buildbarn/bb-remote-execution/pkg/filesystem/virtual"
 	"github.com/buildbarn/bb-storage/pkg/filesystem/path"
@@ -325,10 +326,10 @@ func (r *runner) crace(line string, f []string) {
 		defer func() { recover() }()
 		dirOf(child).LookupChild(comp(0))
 	}()
-	if !waitFor(ft.entered, 5*time.Second) {
+	if !waitFor(ft.entered, hx.ScaledTimeout(5*time.Second)) {
 		// the fetcher was never entered: nothing is held, nothing to judge
 		close(ft.gate)
-		waitFor(t1Done, 5*time.Second)
+		waitFor(t1Done, hx.ScaledTimeout(5*time.Second))
 		ft.gate = nil
 		r.counts["race-not-driven"]++
 		r.dead = true
@@ -344,7 +345,7 @@ func (r *runner) crace(line string, f []string) {
 	case <-parked:
 	case <-t2Done:
 		driven = false
-	case <-time.After(5 * time.Second):
+	case <-time.After(hx.ScaledTimeout(5 * time.Second)):
 		driven = false
 	}
 	r.signal.disarm()
@@ -356,9 +357,9 @@ func (r *runner) crace(line string, f []string) {
 			c.out = protect(c.impl)
 		}
 	}()
-	hung := !waitFor(interDone, 20*time.Second)
+	hung := !waitFor(interDone, hx.ScaledTimeout(20*time.Second))
 	close(ft.gate)
-	if !waitFor(t2Done, 20*time.Second) || !waitFor(t1Done, 20*time.Second) || (hung && !waitFor(interDone, 20*time.Second)) {
+	if !waitFor(t2Done, hx.ScaledTimeout(20*time.Second)) || !waitFor(t1Done, hx.ScaledTimeout(20*time.Second)) || (hung && !waitFor(interDone, hx.ScaledTimeout(20*time.Second))) {
 		r.violation("%s: a call of the race scenario did not return", line)
 		r.dead = true
 		return
